@@ -64,6 +64,11 @@ pub(crate) fn bbox_write_z_range_to<PointType: HasZ, W: Write>(
     Ok(())
 }
 
+/// Vectors filled from a file are pre-allocated for at most this many items: the
+/// counts announced by the file are not trusted to size an allocation, the vectors
+/// grow with the data that is actually there.
+pub(crate) const MAX_PREALLOCATED_ITEMS: usize = 1024;
+
 /// Counts and lengths are read from the file as `i32`: a negative one is invalid data
 pub(crate) fn non_negative(count: i32) -> Result<usize, std::io::Error> {
     usize::try_from(count).map_err(|_| {
@@ -88,7 +93,8 @@ where
     PointType: HasMutXY + Default,
     T: Read,
 {
-    let mut points = Vec::<PointType>::with_capacity(non_negative(num_points)?);
+    let num_points = non_negative(num_points)?;
+    let mut points = Vec::<PointType>::with_capacity(num_points.min(MAX_PREALLOCATED_ITEMS));
     for _ in 0..num_points {
         let mut p = PointType::default();
         *p.x_mut() = source.read_f64::<LittleEndian>()?;
@@ -122,7 +128,7 @@ pub(crate) fn read_parts<T: Read>(
     source: &mut T,
     num_parts: i32,
 ) -> Result<Vec<i32>, std::io::Error> {
-    let mut parts = Vec::<i32>::with_capacity(non_negative(num_parts)?);
+    let mut parts = Vec::<i32>::with_capacity(non_negative(num_parts)?.min(MAX_PREALLOCATED_ITEMS));
     for _ in 0..num_parts {
         parts.push(source.read_i32::<LittleEndian>()?);
     }
@@ -218,7 +224,9 @@ impl<'a, PointType: Default + HasMutXY, R: Read> MultiPartShapeReader<'a, PointT
         let num_points = source.read_i32::<LittleEndian>()?;
         non_negative(num_points)?;
         let parts_array = read_parts(source, num_parts)?;
-        let parts = Vec::<Vec<PointType>>::with_capacity(non_negative(num_parts)?);
+        let parts = Vec::<Vec<PointType>>::with_capacity(
+            non_negative(num_parts)?.min(MAX_PREALLOCATED_ITEMS),
+        );
         Ok(Self {
             num_points,
             num_parts,
